@@ -404,6 +404,8 @@ func (s *Sim) Apply(op Op) *Violation {
 		return s.opRecvClean(op)
 	case "replay":
 		return s.opReplay(op)
+	case "cleanraid":
+		return s.opCleanRaid(op)
 	case "nftissue", "nftmint", "nftxfer", "nftburn", "nftsend":
 		return s.opNFT(op)
 	case "mtissue", "mtmint", "mtxfer", "mtburn", "mtsend":
@@ -1285,12 +1287,56 @@ func (s *Sim) opReplay(op Op) *Violation {
 	return s.record(st)
 }
 
+// opCleanRaid re-submits verbatim (old proof, old proof height) an earlier accepted receive-clean whose
+// sequence is below the target chain's current clean point, and then, verbatim, every earlier receive
+// on that chain and channel: the stale clean must not move the clean point back and re-open the range.
+func (s *Sim) opCleanRaid(op Op) *Violation {
+	var idx []int
+	for i, sm := range s.sent {
+		m, ok := sm.Msg.(*packettypes.MsgRecvCleanPacket)
+		if !ok || !sm.Step.OK || sm.Step.Alter != "" {
+			continue
+		}
+		cp := m.CleanPacket
+		if s.CleanAt(sm.Chain, cp.SourceChain, cp.DestinationChain, s.W.Chains[sm.Chain].Height) > cp.Sequence {
+			idx = append(idx, i)
+		}
+	}
+	if len(idx) == 0 {
+		return nil
+	}
+	i := idx[mod(op.A, len(idx))]
+	sm := s.sent[i]
+	cp := sm.Msg.(*packettypes.MsgRecvCleanPacket).CleanPacket
+	s.Labels["stale-clean-resubmitted"]++
+	if v := s.opReplay(Op{K: "replay", A: i}); v != nil {
+		return v
+	}
+	n := len(s.sent)
+	for j := 0; j < n; j++ {
+		o := s.sent[j]
+		m, ok := o.Msg.(*packettypes.MsgRecvPacket)
+		if !ok || o.Chain != sm.Chain || m.Packet.SourceChain != cp.SourceChain || m.Packet.DestinationChain != cp.DestinationChain || !o.Step.OK {
+			continue
+		}
+		if v := s.opReplay(Op{K: "replay", A: j}); v != nil {
+			return v
+		}
+	}
+	return nil
+}
+
 // opRules sets routing rules on a chain through the keeper (as a passed proposal would).
 // A=chain, B=rule set index.
 func (s *Sim) opRules(op Op) *Violation {
 	c := s.chain(op.A)
 	sets := RuleSets(s.W.Order)
-	rs := sets[mod(op.B, len(sets))]
+	// B alone addresses the first few (generic) lists; two times in three U spreads the choice over all of them
+	idx := op.B
+	if op.U%3 != 0 {
+		idx = op.B + 8*int(op.U/3)
+	}
+	rs := sets[mod(idx, len(sets))]
 	ctx, write := c.Branch()
 	st := &Step{Op: op, Kind: "gov", Chain: c.Name, HBefore: c.Height, Note: "rules=" + strings.Join(rs, ";")}
 	if err := c.App.TIBCKeeper.RoutingKeeper.SetRoutingRules(ctx, rs); err == nil {
@@ -1321,6 +1367,22 @@ func RuleSets(order []string) [][]string {
 			}
 		}
 	}
+	// rule lists of two and three rules; several contain near-miss literals (a proper prefix of a port, a proper
+	// suffix of a chain name) which, read literally, allow nothing
+	pfx := func(x string) string { return x[:len(x)-1-len(x)/3] }
+	sfx := func(x string) string { return x[1+len(x)/3:] }
+	sets = append(sets,
+		[]string{"*,*," + pfx(PortMock), "*,*," + PortNFT},
+		[]string{"*,*," + pfx(PortNFT), "*,*," + pfx(PortMT), "*,*," + PortMock},
+		[]string{"*,*," + PortNFT, "*,*," + PortMT},
+		[]string{"*,*," + PortMT, "*,*," + PortMock, "*,*," + PortNFT})
+	for i, a := range order {
+		b := order[(i+1)%len(order)]
+		sets = append(sets,
+			[]string{"*,*," + PortNFT, sfx(a) + ",*,*"},
+			[]string{b + "," + a + "," + PortMT, sfx(a) + ",*," + pfx(PortMock), "*," + sfx(b) + "," + PortNFT},
+			[]string{a + "," + b + ",*", b + "," + a + ",*"})
+	}
 	return sets
 }
 
@@ -1329,7 +1391,6 @@ var _ = nfttransfer.ModuleName
 var _ = mttransfer.ModuleName
 var _ = nfttypes.ModuleName
 var _ = mttypes.ModuleName
-
 
 // opRound drives one packet through every remaining genuine hop (receives, then acks).
 func (s *Sim) opRound(op Op) *Violation {
@@ -1450,7 +1511,6 @@ func (s *Sim) opStale(op Op) *Violation {
 	return s.doAck(op, c.r, s.W.Chains[c.on], "", 0, 0)
 }
 
-
 // opHostile commits attacker-chosen packet data on the NFT or MT port of chain A for chain B
 // (what a buggy or foreign counterparty application could commit). D selects the shape.
 func (s *Sim) opHostile(op Op) *Violation {
@@ -1541,7 +1601,6 @@ func LabelFailureStage(s *Sim, st *Step) *Violation {
 	return nil
 }
 
-
 // opBurst sends 9-14 mock packets on one channel and delivers each of them (no acks), so that
 // two-digit sequences and many simultaneously pending packets occur. A=src, B=dst, C=relay, D=count.
 func (s *Sim) opBurst(op Op) *Violation {
@@ -1565,7 +1624,6 @@ func (s *Sim) opBurst(op Op) *Violation {
 	}
 	return nil
 }
-
 
 // opBatch delivers two receive messages in ONE transaction on the same chain: a genuine receive of a
 // pending packet plus (B%3) 0: the same message again, 1: a genuine receive of another pending packet,
